@@ -12,7 +12,7 @@
 (assert (forall ((b Bytes) (i Int)) (! (and (<= 0 (bat b i)) (< (bat b i) 256)) :pattern ((bat b i)))))
 ; view of a slice
 (assert (forall ((a (Array Int Int)) (o Int) (l Int)) (! (= (blen (mkbytes a o l)) (ite (>= l 0) l 0)) :pattern ((mkbytes a o l)))))
-(assert (forall ((a (Array Int Int)) (o Int) (l Int) (i Int)) (! (=> (and (<= 0 i) (< i l)) (= (bat (mkbytes a o l) i) (select a (+ o i)))) :pattern ((bat (mkbytes a o l) i)))))
+(assert (forall ((a (Array Int Int)) (o Int) (l Int) (i Int)) (! (=> (and (<= 0 i) (< i l)) (= (bat (mkbytes a o l) i) (select a (idx o i)))) :pattern ((bat (mkbytes a o l) i)))))
 ; sub-range
 (assert (forall ((b Bytes) (lo Int) (hi Int)) (! (=> (and (<= 0 lo) (<= lo hi) (<= hi (blen b))) (= (blen (bsub b lo hi)) (- hi lo))) :pattern ((bsub b lo hi)))))
 (assert (forall ((b Bytes) (lo Int) (hi Int) (i Int)) (! (=> (and (<= 0 lo) (<= lo hi) (<= hi (blen b)) (<= 0 i) (< i (- hi lo))) (= (bat (bsub b lo hi) i) (bat b (+ lo i)))) :pattern ((bat (bsub b lo hi) i)))))
@@ -27,6 +27,10 @@
 ; extensionality
 (assert (forall ((a Bytes) (b Bytes)) (! (=> (and (= (blen a) (blen b)) (= (lcp a b) (blen a))) (= a b)) :pattern ((lcp a b)))))
 (assert (forall ((a Bytes)) (! (= (lcp a a) (blen a)) :pattern ((lcp a a)))))
-(define-fun isprefix ((p Bytes) (s Bytes)) Bool (= (lcp p s) (blen p)))
-(define-fun blt ((a Bytes) (b Bytes)) Bool (or (and (= (lcp a b) (blen a)) (< (blen a) (blen b))) (and (< (lcp a b) (blen a)) (< (lcp a b) (blen b)) (< (bat a (lcp a b)) (bat b (lcp a b))))))
+; isprefix and blt (lexicographic order) are function symbols with defining axioms (not macros)
+; so that derived lemmas can use them as triggers
+(declare-fun isprefix (Bytes Bytes) Bool)
+(assert (forall ((p Bytes) (s Bytes)) (! (= (isprefix p s) (= (lcp p s) (blen p))) :pattern ((isprefix p s)))))
+(declare-fun blt (Bytes Bytes) Bool)
+(assert (forall ((a Bytes) (b Bytes)) (! (= (blt a b) (or (and (= (lcp a b) (blen a)) (< (blen a) (blen b))) (and (< (lcp a b) (blen a)) (< (lcp a b) (blen b)) (< (bat a (lcp a b)) (bat b (lcp a b)))))) :pattern ((blt a b)))))
 (define-fun bcmp ((a Bytes) (b Bytes)) Int (ite (= a b) 0 (ite (blt a b) (- 1) 1)))
